@@ -437,18 +437,17 @@ Definition exForceFeed : vec := [1152921504606846976; 1; 1; 1; 1; 2 - (1 # 1024)
 Theorem C05_force_conserves_refuted : ~ C05_force_conserves_statement.
 Proof.
   intros H.
-  pose (v' := snd (force_process (Simple false (Single exForceR)) exForceFeed)).
-  specialize (H (Simple false (Single exForceR)) exForceFeed v' exW).
-  assert (E : ~ (- (46 * eps) <= vdot exW v' - vdot exW exForceFeed)).
-  { intros Hc. vm_compute in Hc. apply Hc. reflexivity. }
-  apply E. apply (H).
-  - repeat constructor.
-  - repeat constructor; vm_compute; reflexivity.
-  - vm_compute. reflexivity.
-  - intros i. do 8 (destruct i as [|i]; [vm_compute; try congruence; intros; reflexivity|]).
-    unfold nthq; simpl. destruct i; vm_compute; congruence.
-  - vm_compute. congruence.
-  - unfold bounded, exW. repeat (apply Forall_cons; [split; vm_compute; congruence|]). apply Forall_nil.
+  remember (snd (force_process (Simple false (Single exForceR)) exForceFeed)) as v' eqn:Ev.
+  assert (G : - (46 * eps) <= vdot exW v' - vdot exW exForceFeed <= 46 * eps).
+  { refine (H (Simple false (Single exForceR)) exForceFeed v' exW _ _ _ _ 46 _ _).
+    - repeat constructor.
+    - repeat constructor; vm_compute; reflexivity.
+    - rewrite Ev. vm_compute. reflexivity.
+    - rewrite Ev. intros i. do 8 (destruct i as [|i]; [vm_compute; try congruence; intros; reflexivity|]).
+      unfold nthq; simpl. destruct i; vm_compute; congruence.
+    - vm_compute. congruence.
+    - unfold bounded, exW. repeat (apply Forall_cons; [split; vm_compute; congruence|]). apply Forall_nil. }
+  destruct G as (G1 & _). rewrite Ev in G1. vm_compute in G1. apply G1. reflexivity.
 Qed.
 Print Assumptions C05_force_conserves_refuted.
 
